@@ -190,15 +190,20 @@ def canon_tree(j, table):
     return tuple(canon_tree(x, table) for x in j)
 
 
+def unz(z):
+    """Run.v prints a quoted id 2^31 + k as -(k+1)"""
+    return z if z >= 0 else QBIT + (-z - 1)
+
+
 def model_out(v, lex):
     tag = v[0]
-    if tag == "OId":
-        return {"id": v[1]}
-    if tag == "OLex":
+    if tag == "RId":
+        return {"id": unz(v[1])}
+    if tag == "RLex":
         return {"lex": None if v[1] is None else lex(v[1][1])}
-    if tag == "OKey":
-        return {"key": None if v[1] is None else list(v[1][1])}
-    if tag == "OTerm":
+    if tag == "RKey":
+        return {"key": None if v[1] is None else [unz(x) for x in v[1][1]]}
+    if tag == "RTerm":
         if v[1][0] == "Ok":
             t = model_term(v[1][1])
             return {"str": term_str(t, lex), "tree": term_json(t, lex)}
@@ -208,9 +213,10 @@ def model_out(v, lex):
 
 def model_dump(v, lex):
     k2i, i2k, nxt, (qk2i, qi2k, qnxt) = v
-    return {"s2i": sorted([lex(k), i] for k, i in k2i), "i2s": sorted([i, lex(k)] for i, k in i2k), "next": nxt,
-            "c2i": sorted([[a, b, c], i] for a, b, c, i in qk2i), "i2c": sorted([i, list(k)] for i, k in qi2k),
-            "next_qt": qnxt}
+    return {"s2i": sorted([lex(k), unz(i)] for k, i in k2i), "i2s": sorted([unz(i), lex(k)] for i, k in i2k), "next": unz(nxt),
+            "c2i": sorted([[unz(a), unz(b), unz(c)], unz(i)] for a, b, c, i in qk2i),
+            "i2c": sorted([unz(i), [unz(x) for x in k]] for i, k in qi2k),
+            "next_qt": unz(qnxt)}
 
 
 def seq_oracle(case, outs):
@@ -274,8 +280,32 @@ def seq_oracle(case, outs):
     return None
 
 
+def run_impl_isolating(ctx, binpath, cases):
+    """ctx.run_impl, but when a driver process dies (abort, e.g. stack overflow) the cases behind the crashing one
+    in the same shard are run again, so that only the case that really kills the driver is reported as dead."""
+    res = ctx.run_impl(binpath, cases)
+    for _ in range(6):
+        dead = [i for i, r in enumerate(res) if isinstance(r, dict) and r.get("driver_died")]
+        if not dead:
+            break
+        # the first dead case of every contiguous run is a real crasher; the others were never run
+        real = [i for k, i in enumerate(dead) if k == 0 or dead[k - 1] != i - 1]
+        rest = [i for i in dead if i not in set(real)]
+        if not rest:
+            break
+        again = ctx.run_impl(binpath, [cases[i] for i in rest], shards=min(16, len(rest)))
+        for i, r in zip(rest, again):
+            res[i] = r
+        for i in real:
+            res[i] = dict(res[i], driver_died=False, crashed=True)
+    for i, r in enumerate(res):
+        if isinstance(r, dict) and r.get("driver_died"):
+            res[i] = dict(r, crashed=True)
+    return res
+
+
 def eval_seq(ctx, binpath, cases, stream):
-    impl = ctx.run_impl(binpath, [{k: v for k, v in c.items() if k != "mops"} for c in cases])
+    impl = run_impl_isolating(ctx, binpath, [{k: v for k, v in c.items() if k != "mops"} for c in cases])
     exprs = ["seq_run [%s]" % "; ".join(op_coq(tuple(o) if o[0] != "EncT" else ("EncT", tuplify(o[1]))) for o in c["mops"]) for c in cases]
     model = [norm(m) for m in ctx.run_model("Dict", ["KV.Dict.Model", "KV.Dict.Spec", "KV.Dict.Run"], exprs)]
     nmis = nviol = 0
@@ -314,6 +344,7 @@ def eval_seq(ctx, binpath, cases, stream):
         if len({i for i in ids if i < QBIT}) >= 2 and any(i >= QBIT for i in ids) and len(ids) > len(set(ids)):
             ctx.nontrivial(c["mops"])
     ctx.stream(stream, cases=len(cases), impl_model_mismatches=nmis, spec_violations=nviol, **{"op_" + k: v for k, v in kinds.items()})
+    ctx.log("%s: %d sequence cases, %d impl/model mismatches, %d spec violations" % (stream, len(cases), nmis, nviol))
 
 
 def exhaustive_seq(L, rng):
@@ -485,7 +516,8 @@ def drop_undecodable(den):
 
 
 def model_den(v):
-    quads, graphs, terms, quoted, seeds = v
+    """(quads, graphs, seeds) printed by Run.render"""
+    quads, graphs, seeds = v
     qs = set()
     for q in quads:
         g = None if q[3] is None else ("G", model_term(q[3][1]))
@@ -493,16 +525,44 @@ def model_den(v):
     sd = {}
     for s in seeds:
         sd[(model_term(s[0]), model_term(s[1]), model_term(s[2]))] = float(s[3])
-    return {"quads": qs, "graphs": {model_term(g) for g in graphs}, "terms": {model_term(g) for g in terms},
-            "quoted": {model_term(g) for g in quoted}, "seeds": sd}
+    return {"quads": qs, "graphs": {model_term(g) for g in graphs}, "seeds": sd}
+
+
+def dump_den(dump, table):
+    """the dictionary terms and the quoted terms a dump (id-for-id maps) denotes"""
+    i2s = {i: table.get(s, ("?", s)) for i, s in dump["i2s"]}
+    i2c = {i: tuple(k) for i, k in dump["i2c"]}
+
+    def dec(i, depth=0):
+        if depth > 64:
+            return None
+        if i >= QBIT:
+            if i not in i2c:
+                return None
+            parts = tuple(dec(x, depth + 1) for x in i2c[i])
+            return None if None in parts else parts
+        return i2s.get(i)
+
+    return {"terms": set(i2s.values()), "quoted": {dec(i) for i in i2c} - {None}}
+
+
+def sub(den, keys=("quads", "graphs", "seeds")):
+    return {k: den[k] for k in keys}
 
 
 def spec_union(A, B):
-    """the Spec: plain union of the lexical datasets; seeds of B win"""
-    s = dict(A["seeds"])
-    s.update(B["seeds"])
-    return {"quads": A["quads"] | B["quads"], "graphs": A["graphs"] | B["graphs"], "terms": A["terms"] | B["terms"],
-            "quoted": A["quoted"] | B["quoted"], "seeds": s}
+    """the Spec: plain union of the lexical datasets (the parts the property names: quads, graph identities,
+    quoted terms; seeds are judged by spec_seeds_ok)"""
+    return {"quads": A["quads"] | B["quads"], "graphs": A["graphs"] | B["graphs"], "quoted": A["quoted"] | B["quoted"]}
+
+
+def spec_seeds_ok(A, B, U):
+    """seeds of the union: exactly the triples seeded in either operand, each with the seed of an operand that
+    seeds it (where both do and disagree the property text does not say which one wins: the model - right operand
+    wins, as the code inserts `other` last - is compared separately as correspondence)"""
+    if set(U) != set(A) | set(B):
+        return False
+    return all(v in ([A[k]] if k in A else []) + ([B[k]] if k in B else []) for k, v in U.items())
 
 
 def show(den):
@@ -521,9 +581,9 @@ def diff(x, y):
 
 
 def eval_pair(ctx, binpath, cases, stream):
-    impl = ctx.run_impl(binpath, [{k: v for k, v in c.items() if k not in ("ma", "mb")} for c in cases])
+    impl = run_impl_isolating(ctx, binpath, [{k: v for k, v in c.items() if k not in ("ma", "mb")} for c in cases])
     model = [norm(m) for m in ctx.run_model("Dict", ["KV.Dict.Model", "KV.Dict.Spec", "KV.Dict.Run"], [pair_coq(c) for c in cases])]
-    nmis = nviol = npanic = nmal = 0
+    nmis = nviol = npanic = nmal = ndump = 0
     sizes = {"union_quads": 0, "union_graphs": 0, "union_quoted": 0, "union_seeds": 0, "clash_cases": 0, "shared_term_cases": 0,
              "empty_graph_cases": 0, "seed_clash_cases": 0, "max_depth": 0}
     for c, im, mo in zip(cases, impl, model):
@@ -543,7 +603,7 @@ def eval_pair(ctx, binpath, cases, stream):
             ctx.broken("correspondence", stream, "model could not build the operands: %r" % (mo,), c)
             continue
         mv = mo[1]
-        MA, MB, MU = model_den(mv[0:5]), model_den(mv[5]), mv[6]
+        MA, MB, MU = model_den(mv[0:3]), model_den(mv[3]), mv[4]
         detail = None
         # --- the implementation against the Spec (only meaningful for well-formed operands) ---
         if "panic" in im["u"]:
@@ -561,9 +621,11 @@ def eval_pair(ctx, binpath, cases, stream):
                     ctx.violation(c, {"what": "decode_any disagrees with the structural decoding of an id", "examples": (inc_a + inc_b + inc_u)[:3]})
                     nviol += 1
                     continue
-                if U != want:
+                if sub(U, ("quads", "graphs", "quoted")) != want or not spec_seeds_ok(A["seeds"], B["seeds"], U["seeds"]):
                     ctx.violation(c, {"what": "the union does not denote the union of the two lexical datasets",
-                                      "difference(union, spec)": diff(U, want), "a": show(A), "b": show(B), "union": show(U)})
+                                      "difference(union, spec)": diff(sub(U, ("quads", "graphs", "quoted")), want),
+                                      "seeds": {"a": show({"s": A["seeds"]})["s"], "b": show({"s": B["seeds"]})["s"], "union": show({"s": U["seeds"]})["s"]},
+                                      "a": show(A), "b": show(B), "union": show(U)})
                     nviol += 1
                     continue
                 if None in U["terms"] or None in U["quoted"] or None in U["graphs"]:
@@ -571,8 +633,8 @@ def eval_pair(ctx, binpath, cases, stream):
                     nviol += 1
                     continue
         # --- the implementation against the model ---
-        if drop_undecodable(A) != MA or drop_undecodable(B) != MB:
-            detail = {"what": "operands differ", "a": diff(drop_undecodable(A), MA), "b": diff(drop_undecodable(B), MB)}
+        if sub(drop_undecodable(A)) != MA or sub(drop_undecodable(B)) != MB:
+            detail = {"what": "operands differ", "a": diff(sub(drop_undecodable(A)), MA), "b": diff(sub(drop_undecodable(B)), MB)}
         elif U is None:
             if MU[0] != "Err" or MU[1] != "Missing":
                 detail = {"what": "implementation panicked (%s), model says %r" % (im["u"]["panic"], MU)}
@@ -580,12 +642,15 @@ def eval_pair(ctx, binpath, cases, stream):
             detail = {"what": "model reports %r, implementation ran" % (MU,)}
         else:
             muv = MU[1]
-            MUd = model_den(muv[0:5])
-            mdump = model_dump(muv[5], lex_db)
+            MUd = model_den(muv[0:3])
+            mdump = model_dump(muv[3], lex_db)
+            MUd.update(dump_den(mdump, DB_TABLE))
             if drop_undecodable(U) != MUd:
                 detail = {"what": "denotations of the union differ", "diff(impl, model)": diff(drop_undecodable(U), MUd)}
             elif im["u"]["dump"] != mdump:
-                detail = {"what": "the union's dictionary / quoted store differ id-for-id", "impl": im["u"]["dump"], "model": mdump}
+                # which ids the union hands out is not observable through the lexical denotation (a different but
+                # equally correct sweep order changes them): counted, not an alarm
+                ndump += 1
             elif im["a_after"] != im["a"] or im["b_after"] != im["b"]:
                 detail = {"what": "union changed one of its operands"}
         if detail:
@@ -611,8 +676,10 @@ def eval_pair(ctx, binpath, cases, stream):
                 ctx.nontrivial((c["ma"], c["mb"]))
     st = ctx.streams.get(stream, {})
     md = max(st.get("max_depth", 0), sizes.pop("max_depth"))
-    ctx.stream(stream, cases=len(cases), malformed=nmal, union_panics=npanic, impl_model_mismatches=nmis, spec_violations=nviol, **sizes)
+    ctx.stream(stream, cases=len(cases), malformed=nmal, union_panics=npanic, impl_model_mismatches=nmis, spec_violations=nviol,
+               union_ids_differ_from_model=ndump, **sizes)
     ctx.streams[stream]["max_depth"] = md
+    ctx.log("%s: %d pair cases (%d malformed, %d union panics), %d impl/model mismatches, %d spec violations" % (stream, len(cases), nmal, npanic, nmis, nviol))
 
 
 def rand_bops(rng, names, gnames, n, quoted_pool):
@@ -630,8 +697,8 @@ def rand_bops(rng, names, gnames, n, quoted_pool):
         elif r < 0.60:
             ops.append(("AddTriple", rng.choice(names), rng.choice(names), rng.choice(names)))
         elif r < 0.74:
-            sn = sorted(names)[:3]     # the same few triples in both operands, so that seeds clash
-            ops.append(("Tagged", rng.choice(sn), rng.choice(sn[:2]), rng.choice(sn), rng.randrange(0, 17)))
+            sn = sorted(names)[:2]     # the same few triples in both operands, so that seeds clash
+            ops.append(("Tagged", rng.choice(sn), rng.choice(sn), rng.choice(sn), rng.randrange(0, 17)))
         elif r < 0.82:
             ops.append(("Create", rng.choice(gnames + names[:2])))
         elif r < 0.90:
@@ -697,9 +764,38 @@ def materialise(c, rng):
     return pair_case(fix(c["ma"]), fix(c["mb"]), rng, c.get("raw_quads_b", ()), c.get("raw_graphs_b", ()), c.get("raw_seeds_b", ()))
 
 
+def driver(ctx):
+    """The driver built against /repo's working tree (the normal case), or - when VERIF_REPO names another
+    checkout - against that checkout through a private copy of the harness crate with its own target
+    directory.  The second form exists so that mutation self-tests never touch the shared /repo."""
+    if os.path.realpath(vf.REPO) == "/repo":
+        return ctx.harness("c15")
+    hd = os.path.join(ctx.work, "alt_harness")
+    os.makedirs(os.path.join(hd, "src", "bin"), exist_ok=True)
+    src = os.path.join(vf.VERIF, "harness")
+    toml = open(os.path.join(src, "Cargo.toml")).read().replace('"/repo/', '"%s/' % os.path.realpath(vf.REPO))
+    for rel, txt in (("Cargo.toml", toml), ("src/lib.rs", open(os.path.join(src, "src/lib.rs")).read()),
+                     ("src/bin/c15.rs", open(os.path.join(src, "src/bin/c15.rs")).read())):
+        dst = os.path.join(hd, rel)
+        if not os.path.exists(dst) or open(dst).read() != txt:
+            open(dst, "w").write(txt)
+    if not os.path.exists(os.path.join(hd, "Cargo.lock")):
+        import shutil
+        shutil.copy(os.path.join(vf.REPO, "Cargo.lock"), os.path.join(hd, "Cargo.lock"))
+    tgt = os.path.join(ctx.work, "alt_target")
+    rc, out = vf.sh(["cargo", "build", "--offline", "--bin", "c15"], cwd=hd, timeout=3600,
+                    env={"CARGO_NET_OFFLINE": "true", "RUSTFLAGS": "--cfg %s" % vf.GUARD, "CARGO_TARGET_DIR": tgt})
+    if rc != 0:
+        print(out[-4000:])
+        print("[C15] harness build failed against %s (infrastructure error, not a verdict)" % vf.REPO)
+        raise SystemExit(2)
+    ctx.log("driver built against %s" % vf.REPO)
+    return os.path.join(tgt, "debug", "c15")
+
+
 def run(ctx):
     ctx.coq("Dict", "C15.v")
-    binpath = ctx.harness("c15")
+    binpath = driver(ctx)
     rng = ctx.rng
     # corpus first
     corp = [materialise(c, rng) for c in corpus_cases(ctx)]
@@ -745,10 +841,16 @@ def finish(ctx):
 
 
 def replay(ctx):
-    binpath = ctx.harness("c15")
-    c = ctx.replay["case"]
-    if "case" in c and "kind" not in c:
+    binpath = driver(ctx)
+    r = ctx.replay
+    c = r.get("case")
+    if c is None and r.get("broken"):          # an obligation-broken file: replay its first disagreeing case
+        c = next((b.get("case") for b in r["broken"] if b.get("case")), None)
+    while isinstance(c, dict) and "kind" not in c and "case" in c:
         c = c["case"]
+    if not isinstance(c, dict) or "kind" not in c:
+        ctx.broken("replay", "replay-file", "the replay file names no case (a proof or audit obligation broke): re-run ./check C15")
+        ctx.finish(level="proof", rule=PROP_RULE)
     c = materialise(c, ctx.rng)
     if c["kind"] == "seq":
         eval_seq(ctx, binpath, [c], "replay")
